@@ -38,7 +38,7 @@ pub fn accepted_document_check(name: &str, codec: &XmlCodec, class: &str, doc: &
                 t.as_bytes().windows(2).any(|w| w[0] == b'<' && w[1].is_ascii_alphabetic())
             };
             let first_lt = doc.find('<').unwrap_or(doc.len());
-            let lead = !doc[..first_lt].trim().is_empty();
+            let lead = !doc[..first_lt].trim_matches([' ', '\t', '\r', '\n']).is_empty();
             // the shortest prefix (from the first '<') that is a complete well-formed document, if any
             let complete = doc[first_lt..].match_indices('>').map(|(i, _)| first_lt + i + 1).find(|&end| xmlcanon::parse(&doc[first_lt..end]).is_ok());
             let (core, trail) = match complete {
